@@ -388,3 +388,65 @@ def loop_site_obligations():
                                       key, f"insertion-{ri}", pi))
         out.append((key, obs, info))
     return out
+
+
+# ------------------------------------------------------------------------------------------------ copy_port
+class CopyPortProved(Contract):
+    """copy_port(port): a Signal port -> a NEW internal, undirected Signal of the same width (the port itself untouched);
+    a bundle port -> a new non-port bundle instance of the same bundle type without a role; anything else is refused."""
+    key = "hdl21.elab.passes.portrefs:ResolvePortRefs.copy_port"
+    props = ("C05", "C01")
+    pure = False
+    raises = (RuntimeError,)
+    returns = "ref"
+
+    def scenarios(self, eng):
+        from hdl21.bundle import Bundle
+
+        def sig(eng, st):
+            p = sym_ref(st, "port", (Signal,))
+            st.assume(st.heap.get("width", p.z) >= 1)        # type invariant of Signal (its constructor refuses width < 1)
+            return {"self": sym_ref(st, "self", (ResolvePortRefs,)), "port": p}
+        yield Scenario("signal-port", sig)
+
+        def bun(eng, st):
+            eng.field_classes["of"] = (Bundle,)
+            p = sym_ref(st, "port", (BundleInstance,))
+            of = st.heap.get("of", p.z)
+            st.assume(z3.And(of != NULL, st.heap.get("$alive", of), st.heap.get("$cls", of) == st.classid(Bundle)))
+            return {"self": sym_ref(st, "self", (ResolvePortRefs,)), "port": p}
+        yield Scenario("bundle-port", bun)
+
+        def bad(eng, st):
+            return {"self": sym_ref(st, "self", (ResolvePortRefs,)), "port": sym_ref(st, "port", (Instance, NoConn))}
+        s = Scenario("not-a-port", bad)
+        s.expect_raise = True
+        yield s
+
+    def p_copy(self, eng, st0, st, a, res):
+        if not isinstance(res, SRef):
+            return False
+        vis_i = list(Visibility).index(Visibility.INTERNAL)
+        dir_n = list(PortDir).index(PortDir.NONE)
+        fresh_ = z3.And(res.z != a.port.z, z3.Not(st0.heap.get("$alive", res.z)))
+        if issubclass(eng.classes_of(st0, a.port)[0], Signal):
+            untouched = z3.And(st.heap.get("vis", a.port.z) == st0.heap.get("vis", a.port.z),
+                               st.heap.get("direction", a.port.z) == st0.heap.get("direction", a.port.z))
+            return z3.And(fresh_, st.heap.get("$cls", res.z) == st.classid(Signal),
+                          st.heap.get("width", res.z) == st0.heap.get("width", a.port.z),
+                          st.heap.get("vis", res.z) == vis_i, st.heap.get("direction", res.z) == dir_n, untouched)
+        return z3.And(fresh_, st.heap.get("$cls", res.z) == st.classid(BundleInstance),
+                      st.heap.get("of", res.z) == st0.heap.get("of", a.port.z),
+                      z3.Not(st.heap.get("port", res.z)), st.heap.get("role", res.z) == NULL)
+    posts = property(lambda self: [("internal-copy", self.p_copy)])
+    must_raise = property(lambda self: [("not-a-port", lambda eng, st0, a: not any(
+        issubclass(eng.classes_of(st0, a.port)[0], k) for k in (Signal, BundleInstance)))])
+
+
+def copy_port_engine():
+    from .c_bundleinst import SCHEMA_EXTRA as BI_SCHEMA
+    return mk_engine(contracts=[c_elab.Fail()], schema_extra=dict(BI_SCHEMA, desc="optstr", related_clk="ref", related_pwr="ref", related_gnd="ref"),
+                     inline={"hdl21.signal:Signal.__copy__"})
+
+
+VERIFY_COPY_PORT = [CopyPortProved()]
